@@ -268,3 +268,8 @@ for _pid in ('C01', 'C02', 'C09', 'C11', 'C13', 'C18'):
 
 CLAIMS['C09']['text'] += (' C09_store_then_hit: what StoreResponse wrote for (q, r) under a key without an index is served — no origin call, r\'s status and body — to every later request with the same key '
                           'that the written reference matches and for which the decision is to serve, in every later world where that index and entry are unchanged.')
+_RANK = (' {0}_source_ranking: the ranking of VaryHeadersMatch (the comparator closure handed to slices.SortFunc, where `best` starts, when the scan moves it, the test in the return statement) '
+         're-derived from internal/varymatcher.go (Generated/SrcVary.v); the model\'s vary_headers_match is the sort by that comparator followed by the scan with that step (Proofs/TieVary.v).')
+CLAIMS['C04']['text'] += _RANK.format('C04')
+CLAIMS['C09']['text'] += _RANK.format('C09')
+
